@@ -22,6 +22,9 @@ func init() {
 
 func runC18(p *eng.Prog, r *eng.Report, tier string) {
 	c := &cx{p, r, tier}
+	// C18.28 (= C14.1, imported): presences reach the MUC client through the multiplexer's lookup, which is
+	// recomputed on every call (a memo of "no handler" from before the client was registered hides it for good)
+	importRules(c, "C14", []string{"C14.1"}, "C18.28")
 	// C18.26 (= C14.7): a mediated invitation arrives as a message: the type a handler is looked up by is the one the type's own decoder yields (unknown values are normal)
 	typedAttrsThroughOwnDecoder(c, "C18.26")
 	// C18.23 (= C09.17 / C10.10): no cycle in the lock-order graph: a deadlock between a
